@@ -21,4 +21,4 @@ DELIVERABLES in {wt}/_seed/ (create the directory):
   patch.diff  — `git diff -- mitmproxy` of your change (source only)
   demo.py     — a small standalone program, run as `cd <tree> && PYTHONPATH=<tree> /venv/bin/python _seed/demo.py`, that exits 0 on the unmodified tree and exits 1 (printing what went wrong) on the modified tree. It must exercise the real mitmproxy code and show the PROPERTY being violated (observable behaviour), not detect your edit textually.
   meta.json   — {{"property": "{p['id']}", "summary": "<what the change is>", "needs": "<what specific input/sequence/interleaving it needs in order to manifest>", "why_tests_pass": "<why the existing suite does not notice>", "files": ["<changed files>"]}}
-Verify yourself: with the patch applied the suite passes and demo.py exits 1; with it reverted (`git stash -- mitmproxy`, then `git stash pop`) demo.py exits 0. Leave the worktree WITH the patch applied. Final answer: the three file paths and a two-line summary. Time budget: about 30–40 minutes; if your first idea is caught by the existing tests, try another.""")
+Verify yourself: with the patch applied the suite passes and demo.py exits 1; with it reverted (`git apply -R _seed/patch.diff`, afterwards `git apply _seed/patch.diff` again — do NOT use `git stash`: the stash is shared between worktrees and other testers run concurrently) demo.py exits 0. Leave the worktree WITH the patch applied. Final answer: the three file paths and a two-line summary. Time budget: about 30–40 minutes; if your first idea is caught by the existing tests, try another.""")
